@@ -8,5 +8,8 @@ Mixed == { A \cup {M(f, "ordinal")} : A \in Single("cardinal"), f \in {"one", "o
 MCMemberSets == (Single("cardinal") \cup Single("ordinal") \cup Mixed) \ {{}}
 
 EmitCases == (todo = members /\ out.kind = "pending") => PrintT(<<"CASE", ToJson(CaseOf(members, baseIsKey))>>)
+\* the project with several plural keys is emitted once
+EmitMulti == (todo = members /\ out.kind = "pending" /\ members = {M("one", "cardinal")} /\ baseIsKey)
+                => PrintT(<<"CASE", ToJson(MultiCase)>>)
 MCSpec == Init /\ [][Next]_vars /\ WF_vars(Next)
 =============================================================================
